@@ -7,7 +7,7 @@
 (* branch shows.                                                           *)
 (***************************************************************************)
 EXTENDS Net, Json
-CONSTANTS MaxB, MaxN, Kinds, Canon, ValTab, Refs
+CONSTANTS MaxB, MaxN, Kinds, Canon, ValTab, Refs, SymKinds
 VARIABLES br, ref
 
 vars == <<br, ref>>
@@ -45,6 +45,7 @@ Init == br = <<>> /\ ref \in (Nodes \cap Refs)
 AddBranch == /\ Len(br) < MaxB
              /\ \E n1 \in Nodes, n2 \in Nodes, k \in Kinds :
                   /\ n1 # n2
+                  /\ (k \in SymKinds => n1 < n2)        \* orientation-free kinds listed once
                   /\ (Canon => Code(n1, n2, k) >= LastCode)
                   /\ br' = Append(br, Br(Len(br) + 1, n1, n2, Elem(k, Len(br) + 1) @@ [kk |-> k]))
              /\ UNCHANGED ref
